@@ -1,0 +1,17 @@
+//go:build !verif
+
+// Package verifhook carries the verification hooks used by the external
+// model-based conformance harness. Without the "verif" build tag every
+// function is an empty, inlinable no-op.
+package verifhook
+
+// Enabled reports whether hooks are compiled in.
+const Enabled = false
+
+// Emit reports a state-changing step of obj (called under the lock that
+// protects the reported state).
+func Emit(obj any, ev string, fields ...int64) {}
+
+// Yield marks a point between two critical sections where a scheduler may
+// interleave other goroutines.
+func Yield(obj any, point string) {}
